@@ -156,9 +156,9 @@ fn parse_slurm_status(items: Map<&str, &str>) -> AutoAllocResult<AllocationExter
             .copied()
     };
     let parse_time = |time: &str| -> AutoAllocResult<SystemTime> {
-        Ok(local_to_system_time(parse_slurm_datetime(time).map_err(
-            |err| anyhow::anyhow!("Cannot parse Slurm datetime {}: {:?}", time, err),
-        )?))
+        let datetime = parse_slurm_datetime(time)
+            .map_err(|err| anyhow::anyhow!("Cannot parse Slurm datetime {}: {:?}", time, err))?;
+        local_to_system_time(datetime)
     };
 
     let status = get_key("JobState")?;
